@@ -465,7 +465,7 @@ func formFloatExpectDirty(old, v reflect.Value) string { return canon(formExpect
 func runLibs(cfg *RunCfg) {
 	r := cfg.Rng
 	st := NewStats("C11", cfg)
-	st.Rule = "libs: per codec {json, xml, protobuf, thrift, plain on float32/float64 scalars and pointers, form on a struct with float32/float64 fields, slices, arrays, nested}: round trip of generated values (ints at width extremes, floats incl. pi, 1/3, >7 and 17 significant digits, MaxFloat64, above MaxFloat32, subnormals of both widths, +-Inf, -0, random bit patterns (NaN excluded: NaN != NaN), each followed by a decode of the same bytes into a DIRTY destination (holding another decoded value) compared modulo the documented merge semantics, valid UTF-8 strings (XML: XML chars), slices/arrays/maps/nested/pointers as the library supports) compared element-wise; nil / struct{} / *struct{} / foreign types through the repository's dispatch; random bytes and mutated valid encodings into every destination must yield value or error, never a panic; distinct by (codec, encoded bytes or garbage)"
+	st.Rule = "libs: per codec {json, xml, protobuf, thrift, plain on float32/float64 scalars and pointers, form on a struct with float32/float64 fields, slices, arrays, nested}: round trip of generated values (ints at width extremes, floats incl. pi, 1/3, >7 and 17 significant digits, MaxFloat64, above MaxFloat32, subnormals of both widths, +-Inf, -0, random bit patterns (NaN excluded: NaN != NaN), each encoder result kept alive UNCOPIED across later encodes (same and other codecs) and compared with its snapshot, the first result decoded only after two later encodes, each followed by a decode of the same bytes into a DIRTY destination (holding another decoded value) compared modulo the documented merge semantics, valid UTF-8 strings (XML: XML chars), slices/arrays/maps/nested/pointers as the library supports) compared element-wise; nil / struct{} / *struct{} / foreign types through the repository's dispatch; random bytes and mutated valid encodings into every destination must yield value or error, never a panic; distinct by (codec, encoded bytes or garbage)"
 	distinct := DistinctSet{}
 	jsonT := []reflect.Type{reflect.TypeOf(LJSON{}), reflect.TypeOf(LScalars{}), reflect.TypeOf(Slices{}), reflect.TypeOf(Arrays{}), reflect.TypeOf(Nested{}), reflect.TypeOf(Named{})}
 	xmlT := []reflect.Type{reflect.TypeOf(LXML{}), reflect.TypeOf(LScalars{}), reflect.TypeOf(LInner{})}
@@ -512,6 +512,7 @@ func runLibs(cfg *RunCfg) {
 	for i := 0; i < cfg.N; i++ {
 		f := fams[r.Intn(len(fams))]
 		libNoInf = f.name == "json"
+		flushStability(st, i)
 		if r.Intn(8) == 0 {
 			st.Count(f.name + ":message-body")
 			bodyLibStep(r, st, i, f)
@@ -572,6 +573,29 @@ func runLibs(cfg *RunCfg) {
 					}
 				}
 			}
+			// encode several values before decoding any: the FIRST encoder result, never copied, is
+			// decoded only after another value went through the same codec and one through another codec
+			if raw1, ok := rawMarshal(f.c, v.Interface()); ok {
+				v2, _ := f.fresh(r)
+				rawMarshal(f.c, v2.Interface())
+				g := fams[r.Intn(len(fams))]
+				v3, _ := g.fresh(r)
+				rawMarshal(g.c, v3.Interface())
+				_, z1 := f.fresh(r)
+				for try := 0; try < 12 && z1.Type() != v.Type(); try++ {
+					_, z1 = f.fresh(r)
+				}
+				if z1.Type() == v.Type() {
+					st.Count(f.name + ":decode-after-later-encodes")
+					if do3, msg3 := guardedUnmarshal(f.c, raw1, z1.Interface()); do3 != oOK || canon(z1.Elem()) != canon(v.Elem()) {
+						gs := canon(z1.Elem())
+						if len(gs) > 300 {
+							gs = gs[:300] + "..."
+						}
+						st.Fail(i, f.name+"-encoding-overwritten", "decode(encode(v1)) after encode(v2) != v1: "+msg3+" got "+gs, human)
+					}
+				}
+			}
 			distinct.Add(f.name + Hx(enc))
 			if len(st.Samples) < 4 {
 				st.Samples = append(st.Samples, fmt.Sprintf("%s -> %d bytes", human, len(enc)))
@@ -624,6 +648,8 @@ func runLibs(cfg *RunCfg) {
 			}
 		}
 	}
+	flushStability(st, cfg.N-1)
+	st.Extra = map[string]interface{}{"encodings_kept_alive_libs": stabilityHits}
 	st.Evaluations = cfg.N
 	st.DistinctNontrivial = len(distinct)
 	st.Write(cfg, nil)
